@@ -193,6 +193,9 @@ func ParseCopySourceRange(size int64, acceptRange string) (int64, int64, error) 
 // ParseCopySource parses x-amz-copy-source header and returns source bucket,
 // source object, versionId, error respectively
 func ParseCopySource(copySourceHeader string) (string, string, string, error) {
+	if copySourceHeader == "" {
+		return "", "", "", s3err.GetAPIError(s3err.ErrInvalidCopySource)
+	}
 	if copySourceHeader[0] == '/' {
 		copySourceHeader = copySourceHeader[1:]
 	}
@@ -208,6 +211,21 @@ func ParseCopySource(copySourceHeader string) (string, string, string, error) {
 
 	srcBucket, srcObject, ok := strings.Cut(copySource, "/")
 	if !ok {
+		return "", "", "", s3err.GetAPIError(s3err.ErrInvalidCopySource)
+	}
+
+	// bucket, key and version id are mapped onto the backing store: "." and
+	// ".." segments would make the source another bucket's object (for which
+	// access was not checked) or a file outside the gateway root
+	if srcBucket == "" || srcBucket == "." || srcBucket == ".." {
+		return "", "", "", s3err.GetAPIError(s3err.ErrInvalidCopySource)
+	}
+	for _, seg := range strings.Split(srcObject, "/") {
+		if seg == "." || seg == ".." {
+			return "", "", "", s3err.GetAPIError(s3err.ErrInvalidCopySource)
+		}
+	}
+	if versionId == "." || versionId == ".." || strings.ContainsAny(versionId, "/\x00") {
 		return "", "", "", s3err.GetAPIError(s3err.ErrInvalidCopySource)
 	}
 
